@@ -285,7 +285,7 @@ theorem namespace_iff_entity (root : Str) (sub : Str → Str) (namespaces : Opti
     (h : convert root sub namespaces entities survey = .ok o) :
     (o.entity.isSome ↔ entities ≠ []) ∧ (o.version.isSome ↔ o.entity.isSome) ∧
     (o.entity.isSome → o.xmlns = some Spec.entitiesNs ∧ o.version = some (Spec.versionAttr, Gen.entitiesOfflineVersion)) ∧
-    (o.entity = none → o.xmlns = (lookup entitiesPrefix (nsExtra namespaces false)).map fun u => (entitiesPrefix, u)) := by
+    (o.entity = none → o.xmlns = userEntitiesNs namespaces) := by
   unfold convert at h
   cases entities with
   | nil =>
@@ -311,7 +311,7 @@ theorem namespace_iff_entity_user (root : Str) (sub : Str → Str) (namespaces :
     (h : convert root sub namespaces entities survey = .ok o) : (o.xmlns.isSome ↔ o.entity.isSome) := by
   obtain ⟨_, _, h3, h4⟩ := namespace_iff_entity root sub namespaces entities survey o h
   cases he : o.entity with
-  | none => simp [h4 he, huser]
+  | none => simp [h4 he, userEntitiesNs, huser]
   | some e => simp [(h3 (by simp [he])).1]
 
 example : (okVal (convert "data".toList id (some "ex=\"http://example.com/x\"".toList) []
@@ -321,6 +321,16 @@ example : (okVal (convert "data".toList id (some "ex=\"http://example.com/x\"".t
       [[("dataset".toList, "t".toList), ("label".toList, "x".toList)]]
       [[("type".toList, "text".toList), ("name".toList, "q".toList)]])).map
     (fun o => (o.entity.isSome, o.xmlns, o.version.isSome)) = some (true, some Spec.entitiesNs, true) := by decide
+
+/-- what happens when the user's own `namespaces` cell declares the prefix `entities`: without an entity the
+    root carries the user's URI; with an entity the appended declaration wins -/
+example : (okVal (convert "data".toList id (some "entities=\"http://example.com/mine\"".toList) []
+      [[("type".toList, "text".toList), ("name".toList, "q".toList)]])).map (·.xmlns) =
+    some (some ("entities".toList, "http://example.com/mine".toList)) := by decide
+example : (okVal (convert "data".toList id (some "entities=\"http://example.com/mine\"".toList)
+      [[("dataset".toList, "t".toList), ("label".toList, "x".toList)]]
+      [[("type".toList, "text".toList), ("name".toList, "q".toList)]])).map (·.xmlns) =
+    some (some Spec.entitiesNs) := by decide
 
 /-- one-row sheets: the declaration function and the spec's reading of the row agree in every case
     (unknown columns, missing / invalid dataset, the sixteen combinations) -/
@@ -381,14 +391,15 @@ theorem declaration_agrees (root : Str) (sub : Str → Str) (row : Cells) :
 
 /-- **convert_eq_spec.**  The whole mechanism (entities sheet → declaration → nodes; survey rows → saveto
     binds; namespace and version) equals the documented specification on every input the model answers, for
-    every settings `namespaces` value that does not itself declare the prefix `entities`: what it converts is
-    exactly what the spec demands, and what it rejects the spec rejects. -/
-theorem convert_eq_spec (root : Str) (sub : Str → Str) (namespaces : Option Str) (entities survey : List Cells)
-    (huser : lookup entitiesPrefix (nsExtra namespaces false) = none) :
+    *every* value of the settings `namespaces` cell (no assumption about it: with an entity the entities
+    namespace is declared whatever the cell says; without one the root carries exactly what the cell itself
+    declares for that prefix, `userEntitiesNs`): what it converts is exactly what the spec demands, and what it
+    rejects the spec rejects. -/
+theorem convert_eq_spec (root : Str) (sub : Str → Str) (namespaces : Option Str) (entities survey : List Cells) :
     match convert root sub namespaces entities survey with
-    | .ok o => Spec.form root sub Gen.entitiesOfflineVersion entities survey = some o
+    | .ok o => Spec.form root sub Gen.entitiesOfflineVersion (userEntitiesNs namespaces) entities survey = some o
     | .error (.unsupported _) => True
-    | .error _ => Spec.form root sub Gen.entitiesOfflineVersion entities survey = none := by
+    | .error _ => Spec.form root sub Gen.entitiesOfflineVersion (userEntitiesNs namespaces) entities survey = none := by
   unfold convert
   cases entities with
   | nil =>
@@ -398,7 +409,7 @@ theorem convert_eq_spec (root : Str) (sub : Str → Str) (namespaces : Option St
     | ok sv =>
       rw [hres] at hw
       simp only [agrees, frames, List.map_nil] at hw
-      simp [Spec.form, hw, huser]
+      simp [Spec.form, hw]
     | error e =>
       rw [hres] at hw
       cases e with
